@@ -106,6 +106,21 @@ func (fr *Frame) lookupLocal(name string, pos token.Pos) *Loc {
 		return nil
 	}
 	var best *ssa.Alloc
+	if len(cands) > 1 && fr.curLoop != nil {
+		// compiler-generated names (rangeindex, ...) repeat: prefer the one the current loop uses
+		var used []*ssa.Alloc
+		for _, a := range cands {
+			for _, ref := range *a.Referrers() {
+				if ref.Block() != nil && fr.curLoop.body[ref.Block()] {
+					used = append(used, a)
+					break
+				}
+			}
+		}
+		if len(used) == 1 {
+			cands = used
+		}
+	}
 	if len(cands) == 1 {
 		best = cands[0]
 	} else {
